@@ -2,8 +2,9 @@
 
 The REAL aioftp.Server runs on simnet with a fault-injecting backend: a subclass of the shipped backend class
 in which the INNERMOST function of every operation (below the class's own decorator stack, which is rebuilt
-around it unchanged - so `universal_exception` is exercised exactly where the source puts it) raises an exception (OSError, ValueError or RuntimeError)
-at the k-th backend call of the run.  Scripts x every k (single) and pairs (double) are compared with the
+around it unchanged - so `universal_exception` is exercised exactly where the source puts it) raises an exception (27 classes)
+at the k-th backend call of the run - or (the SHAPE dimension) an override of the operation ABOVE that stack, the custom
+backend's own method, reports the failure itself as an aioftp.PathIOError (bare, with a `reason` of several shapes, subclasses).  Scripts x every k (single) and pairs (double) are compared with the
 extracted Model/Faults.v (instantiated with the facts regenerated from the source) and judged by the
 property's own oracle (451, no 2xx, data EOF, follow-ups on the same and on a second session).
 
@@ -48,18 +49,22 @@ LEVEL_TEXT = (
     "C13_same_wakeup_contained (one wake-up of the dispatcher with ANY finished tasks in any order: each PathIOError task its own 451, "
     "every command line dispatched and parse_command re-armed; obligation C13_round_obligation: each task.result() under its own try), "
     "C13_batch_try_drops (what one try around all results would lose). "
+    "C13_shape_obligation (the dispatcher's PathIOError clause never reads the exception object: the reaction is the same for a "
+    "PathIOError made by universal_exception, one raised by the backend itself with reason=None or any other reason, and any subclass). "
     "Tied to the code by C13_source_obligations / C13_probe_obligations (vm_compute on facts regenerated from server.py / pathio.py) "
-    "and by scripts x every fault position (single, double; 27 exception classes incl. the TimeoutError family and a real path_timeout expiry; three "
-    "backends) and by the same-wake-up stream (two tasks of one session aligned in one dispatcher round) on the real server."
+    "and by scripts x every fault position (single, double; 27 exception classes incl. the TimeoutError family and a real path_timeout expiry; "
+    "every fault site x 11 shapes of a PathIOError the backend raises itself; three backends) and by the same-wake-up stream (two tasks of one session aligned in one dispatcher round) on the real server."
 )
 LEVEL_NOTE = (
     "Trusted: Coq kernel, py2v (gen_dispatch, gen_faultsites), extraction, simnet, the fault injector (rebuilds each backend method's "
     "decorator closure around a raising leaf). Modelled not verified: asyncio `async with` enter/exit order and exception "
     "replacement, one command at a time, faults while writing to the data socket, cancellation (C14), custom backends that do "
-    "not use universal_exception."
+    "not use universal_exception and raise something else than PathIOError (a custom backend that raises PathIOError itself - any "
+    "shape, any subclass - IS exercised: the shape stream; the Coq model has no exception payload, which is what C13_shape_obligation ties to the source)."
 )
 TRUSTED = [
     "fault injector: types.FunctionType re-closure of the shipped methods' decorator stacks around a leaf that raises (27 classes), outlasts path_timeout, or parks until released",
+    "fault injector, shape stream: an override of each operation above the shipped decorator stack raises aioftp.PathIOError / a subclass at the k-th backend call",
     "simnet: EOF / open-transport ledger stands for what a TCP peer would observe",
 ]
 ASSUMPTIONS = [
@@ -930,7 +935,12 @@ def correspondence(ctx, budget=None):
         "for subsets. Compared with the model per command: reply codes, backend call sequence with raise marks, data connection "
         "taken / closed (client-side EOF after 30 virtual seconds), bytes / listing received, session probe, server-side open data "
         "transports, final tree. Every other run uses a backend whose result-ignored operations (close, mkdir, rmdir, unlink, rename) return "
-        "truthy values instead of None. Non-trivial = distinct (backend, script, fault plan, class/return mode). SAME-ROUND stream: the j-th backend call "
+        "truthy values instead of None. SHAPE of the failure: besides exceptions raised inside the shipped operation (wrapped by universal_exception) "
+        "the backend reports its failure ITSELF - an override above the shipped decorator stack raises aioftp.PathIOError() / PathIOError(msg) / "
+        "with __cause__ / reason=sys.exc_info() / reason=(None, None, None) / reason=<exception> / reason=<str> / a plain subclass / a subclass with "
+        "its own constructor (no reason attribute) / a subclass that is an OSError too, and PathIOError raised inside the shipped operation: every fault "
+        "site (backend, command, operation) x every shape on MemoryPathIO (two shapes per site on PathIO / AsyncPathIO), every other single position and "
+        "every third double with one rotating shape; thorough: every single position x every shape. Non-trivial = distinct (backend, script, fault plan, class/return mode). SAME-ROUND stream: the j-th backend call "
         "of RETR / STOR / LIST / MLSD / MKD / DELE (every j) parks inside the backend; then either the next command line (PWD, or an "
         "unknown verb) is written but held on the wire, or a pipelined MKD / DELE parks in its own backend call; both are let go d loop "
         "iterations apart (quick d in -2..2, thorough -4..4) so that both tasks are done in ONE wake-up of the dispatcher (counted by a spy "
